@@ -777,6 +777,11 @@ func (vals *ValidatorSet) VerifyCommitLightTrusting(chainID string, commit *Comm
 	if trustLevel.Denominator == 0 {
 		return errors.New("trustLevel has zero Denominator")
 	}
+	// The fraction is converted to int64 below; a field above MaxInt64 would
+	// turn negative and the needed voting power with it.
+	if trustLevel.Numerator > math.MaxInt64 || trustLevel.Denominator > math.MaxInt64 {
+		return errors.New("trustLevel numerator and denominator must fit in int64")
+	}
 
 	var (
 		talliedVotingPower int64
